@@ -208,4 +208,17 @@ def run(prog: Program, chk: Check):
         p = [x for x in fi.params() if x != "self"][0]
         okk = any(isinstance(n, ast.FormattedValue) and norm(n.value) == f"{p}.size" for n in walk_local(fi.node))
         S.decide(okk, fkey(fi, "type_size"), where(fi), "type_size emitted from <def>.size", f"{fn} does not emit type_size from {p}.size")
+    # ---- G every compile starts from clean generator state ---------------------------------------------------------------
+    from .c16 import shared_mutable_state
+    from .c15 import reserved_name_verdict
+
+    G = chk.rule("C04-G", "no module- or class-level container of the parser / back ends is mutated at run time; reserved attribute names are rejected for every definition kind", 2,
+                 "a cache shared between compiles makes one language output describe an earlier closure's types; a field named like a generated attribute breaks only the Python class")
+    sms = shared_mutable_state(prog, [PAR] + [v[0] for v in BACKENDS.values()])
+    for mn, owner, name, f, n in sms:
+        G.bad(fkey(f, f"shared:{(owner + '.') if owner else ''}{name}"), where(f, n), f"{f.qual} mutates the {'class' if owner else 'module'}-level container `{(owner + '.') if owner else ''}{name}`: within one process a later compile sees entries of an earlier one")
+    if not sms:
+        G.ok("compilers|no-shared-mutable-state", "src/pyrtma/compilers", "no shared mutable generator state")
+    okr, why, afn = reserved_name_verdict(prog)
+    G.decide(okr, fkey(afn, "reserved-names-all-kinds"), where(afn), why, "a field named like a generated message attribute can reach a message through field-list reuse and breaks only the Python output: " + why)
     chk.units.update({"tables": {k: len(v) for k, v in tables.items()}, "native_names": len(natives)})
